@@ -3,15 +3,16 @@
 set -e
 cd "$(dirname "$0")"
 export PYTHONDONTWRITEBYTECODE=1
-mkdir -p .work evidence replays
+mkdir -p .work/jtmp evidence replays
 /venv/bin/python -m harness.proj
 CP=/opt/veriftools/tla/tla2tools.jar:/opt/veriftools/tla/CommunityModules-deps.jar
 fail=0
 for f in trace/Cases.tla trace/Gen*.tla mc/*.tla; do
   [ -e "$f" ] || continue
-  if ! java -DTLA-Library=$PWD/spec:$PWD/trace:$PWD/mc -cp $CP tla2sany.SANY "$f" > .work/sany.log 2>&1 || grep -q -E "^\*\*\* Errors|Fatal|Could not" .work/sany.log; then
+  if ! java -Djava.io.tmpdir=$PWD/.work/jtmp -DTLA-Library=$PWD/spec:$PWD/trace:$PWD/mc -cp $CP tla2sany.SANY "$f" > .work/sany.log 2>&1 || grep -q -E "^\*\*\* Errors|Fatal|Could not" .work/sany.log; then
     echo "SANY failed on $f"; tail -20 .work/sany.log; fail=1
   fi
 done
+rm -rf .work/jtmp
 [ $fail = 0 ] && echo "setup ok"
 exit $fail
